@@ -406,32 +406,31 @@ pub fn run() -> SimResult {
                                 }
                             }
                             18 => {
-                                // consume a clone through into_iter, from both ends
-                                tr!("{} #{}{} into_iter of a clone", what, hi, gen::path_str(&p));
-                                let back = draw(len as u32 + 1) as usize;
-                                let (front_items, back_items): (Vec<Value>, Vec<Value>) = libcall("into_iter", || {
+                                // consume a clone through into_iter with a drawn schedule of next / next_back
+                                // calls that goes on past exhaustion: it must behave like vec::IntoIter
+                                let ncalls = len + 1 + draw(3) as usize;
+                                let sched: Vec<bool> = (0..ncalls).map(|_| draw(2) == 1).collect();
+                                tr!("{} #{}{} into_iter of a clone, schedule {}", what, hi, gen::path_str(&p), sched.iter().map(|b| if *b { 'b' } else { 'f' }).collect::<String>());
+                                let (items, lens): (Vec<Option<Value>>, Vec<usize>) = libcall("into_iter", || {
                                     let a: Array = arr!(&mut pool[hi].v).clone();
                                     let mut it = a.into_iter();
-                                    let mut b = Vec::new();
-                                    for _ in 0..back {
-                                        if let Some(x) = it.next_back() {
-                                            b.push(x);
-                                        }
+                                    let mut out = Vec::new();
+                                    let mut lens = Vec::new();
+                                    for &back in &sched {
+                                        out.push(if back { it.next_back() } else { it.next() });
+                                        lens.push(it.len());
                                     }
-                                    let f: Vec<Value> = it.collect();
-                                    (f, b)
+                                    (out, lens)
                                 })?;
-                                let want_front = &ma[..len - back.min(len)];
-                                if front_items.len() != want_front.len() || back_items.len() != back.min(len) {
-                                    return Err(mismatch(&what, "Array::into_iter", format!("yielded {}+{} items of {}", front_items.len(), back_items.len(), len)));
+                                let mut model: std::collections::VecDeque<J> = ma.iter().cloned().collect();
+                                for (k, &back) in sched.iter().enumerate() {
+                                    let want = if back { model.pop_back() } else { model.pop_front() };
+                                    libcall("check", || same_opt(&items[k], &want, &what, if back { "IntoIter::next_back" } else { "IntoIter::next" }))??;
+                                    if lens[k] != model.len() {
+                                        return Err(mismatch(&what, "IntoIter::len", format!("{} after call {} but the model has {} left", lens[k], k, model.len())));
+                                    }
                                 }
-                                for (g, w) in front_items.iter().zip(want_front.iter()) {
-                                    libcall("check", || oracle::check_value(g, w, &format!("{} into_iter item", what)))??;
-                                }
-                                for (k, g) in back_items.iter().enumerate() {
-                                    libcall("check", || oracle::check_value(g, &ma[len - 1 - k], &format!("{} into_iter next_back item", what)))??;
-                                }
-                                libcall("drop", move || drop((front_items, back_items)))?;
+                                libcall("drop", move || drop(items))?;
                             }
                             _ => {
                                 // Extend / FromIterator
